@@ -42,7 +42,16 @@ func streamSchedule(rng *rand.Rand, cycles int, vary int) []strOp {
 		case r < 2:
 			ops = append(ops, strOp{t, 0xff26, []int{0x00, 0x80, 0x80}[rng.Intn(3)]})
 		case r < 5:
-			ops = append(ops, strOp{t, 0xff25, rng.Intn(256)})
+			v := rng.Intn(256)
+			if rng.Intn(3) == 0 {
+				// both sides routed alike except for one channel
+				h := rng.Intn(16)
+				v = h<<4 | h ^ 1<<uint(rng.Intn(4))
+				if rng.Intn(2) == 0 {
+					v = (h^1<<uint(rng.Intn(4)))<<4 | h
+				}
+			}
+			ops = append(ops, strOp{t, 0xff25, v})
 		case r < 7:
 			ops = append(ops, strOp{t, 0xff24, rng.Intn(256)})
 		case r < 9:
